@@ -253,8 +253,10 @@ def soils(draw, P, zmax):
             lay = draw(st.one_of(hyd_layer(P, li > 0), hyd_layer(P, li > 0), tex_layer(P, li > 0)))
             if li < nl - 1:
                 thick = r2(sum(base_dz[bounds[li]:bounds[li + 1]]))
+            elif flag(draw, 0.5):
+                thick = r2(sum(base_dz[bounds[li]:]) + 4.0)   # reaches far below the profile
             else:
-                thick = r2(sum(base_dz[bounds[li]:]) + 4.0)
+                thick = r2(sum(base_dz[bounds[li]:]))         # ends exactly at the bottom of the (un-deepened) profile
             lay["thickness"] = thick
             layers.append(lay)
         if "calc_cn" in args and args["calc_cn"] == 1:
@@ -407,6 +409,11 @@ def groundwaters(draw, P, start, ndays):
     if kind == "const":
         return dict(method="Constant", dates=[start.strftime("%Y/%m/%d")], values=[draw(depth)])
     n = draw(st.integers(2, 6))
+    if kind == "Constant" and flag(draw, 0.4):
+        # step-function readings may lie anywhere, also before the start / after the end of the window
+        offs = sorted(draw(st.lists(st.integers(-500, ndays + 300), min_size=n, max_size=n, unique=True)))
+        dates = [start + dt.timedelta(days=o) for o in offs]
+        return dict(method=kind, dates=[d.strftime("%Y/%m/%d") for d in dates], values=[draw(depth) for _ in dates])
     offs = sorted(draw(st.lists(st.integers(1, max(1, ndays - 1)), min_size=n - 1, max_size=n - 1, unique=True)))
     dates = [start] + [start + dt.timedelta(days=o) for o in offs]
     return dict(method=kind, dates=[d.strftime("%Y/%m/%d") for d in dates], values=[draw(depth) for _ in dates])
@@ -532,4 +539,8 @@ def configs(draw, P=None):
     if flag(draw, 0.15):
         ev.append(dict(type="et0", day=draw(st.integers(0, days - 1)), len=draw(st.integers(1, 30)), value=draw(f1(10.0, 20.0))))
     cfg["weather"] = w
+    # the input objects may have been used by earlier model initialisations (0, 1 or 2 of them)
+    r = draw(st.integers(0, 9))
+    if r >= 8 and P.get("reuse", True):
+        cfg["reuse"] = r - 7
     return cfg
